@@ -7,7 +7,7 @@ every specification and every placement; type-level rules are tied by the corres
 DESIGN §3 C17)
 -/
 namespace EoVerif.Gen
-open EoVerif.Spec
+open EoVerif.Spec EoVerif.Gen.WF
 
 /-- the generator's context and the declarative context of the same position agree -/
 def Agree (ctx : Ctx) (w : WCtx) : Prop :=
